@@ -52,6 +52,8 @@ def make_skeleton(rng, idx: int, probes: bool = False) -> dict:
             f = {"name": name, "style": style, "block": block}
             if rng.random() < 0.2 and style == "func":
                 f["async"] = True
+            if lang != "py" and f["style"] != "method" and rng.random() < 0.3:
+                f["layout"] = rng.choice(["one-line", "pairs", "body-line"])  # several blocks per physical line: depth does not need height
             if lang == "py" and f["style"] == "func" and rng.random() < 0.35:
                 f["placed"] = rng.choice(["else", "except", "finally", "case", "if", "with", "elif"])
             if used & {"asyncfor", "asyncwith", "asyncblock"}:
